@@ -3,6 +3,7 @@
 // Topology c: real sender against a scripted IBB receiver.
 #include "session_world.h"
 
+#include "net/simtcp.h"
 #include "peers/crypto.h"
 
 #include "QXmppTransferManager.h"
@@ -60,7 +61,7 @@ public:
     QString describe() const override
     {
         return QStringLiteral("real: QXmppTransferManager (stream initiation, in-band bytestreams, size/hash verification), QXmppTransferIncomingJob/OutgoingJob, QXmppClient ; "
-                              "stub: transport, ScriptedServer relaying to a scripted IBB peer (sender with arbitrary block size and faults on the block sequence, or receiver), FaultyBuffer device ; or (15 %) a second real client with its own transfer manager reached through a faulty relay ; SOCKS5 bytestreams are not simulated");
+                              "stub: transport, ScriptedServer relaying to a scripted IBB peer (sender with arbitrary block size and faults on the block sequence, or receiver), FaultyBuffer device ; or (15 %) a second real client with its own transfer manager reached through a faulty relay ; the SOCKS5 *receive* path (17 %) through QXmppSocksClient on a simulated TCP layer with a scripted stream host; the SOCKS5 sending side (QXmppSocksServer/QTcpServer) is not simulated");
     }
 
     Plan generate(quint64 seed, const QString &tier) override
@@ -73,10 +74,10 @@ public:
         k[QStringLiteral("sm")] = r.chance(0.3) ? 1 : 0;
         k[QStringLiteral("autoAck")] = 1;
         k[QStringLiteral("autoReconnect")] = 0;
-        const int topo = r.weighted({ 60, 25, 15 });   // 0: scripted sender -> real receiver, 1: real sender -> scripted receiver, 2: real sender -> real receiver through a faulty relay
+        const int topo = r.weighted({ 50, 20, 13, 17 });   // 0: scripted sender -> real receiver, 1: real sender -> scripted receiver, 2: real sender -> real receiver through a faulty relay, 3: scripted sender -> real receiver over a SOCKS5 bytestream
         k[QStringLiteral("topology")] = topo;
         const int drawn = r.pick(QVector<int> { 1, 2, 3, 7, 16, 64, 255, 256, 1000, 4096 });
-        const int block = topo >= 1 ? 4096 : drawn;
+        const int block = (topo == 1 || topo == 2) ? 4096 : drawn;
         k[QStringLiteral("block")] = block;
         int size;
         switch (r.uniform(8)) {
@@ -120,7 +121,7 @@ public:
             QObject ctx;
             const int topology = (int)plan.knob(QStringLiteral("topology"));
             // the real sender always uses 4096-byte blocks
-            const int block = plan.knob(QStringLiteral("topology")) >= 1 ? 4096 : (int)std::max<qint64>(1, plan.knob(QStringLiteral("block"), 4096));
+            const int block = (plan.knob(QStringLiteral("topology")) == 1 || plan.knob(QStringLiteral("topology")) == 2) ? 4096 : (int)std::max<qint64>(1, plan.knob(QStringLiteral("block"), 4096));
             const int size = (int)plan.knob(QStringLiteral("size"));
             const int announce = (int)plan.knob(QStringLiteral("announce"));
             int fault = (int)plan.knob(QStringLiteral("fault"));
@@ -146,6 +147,12 @@ public:
                 fault = 0;   // nothing to tamper with
             }
 
+            if (topology == 3) {
+                runSocks(plan, tr, res, w, file, md5, block, announce, (int)plan.knob(QStringLiteral("fault")), faultAt);
+                res.traceHash = tr.hash.value();
+                res.trace = tr.lines;
+                return res;
+            }
             if (topology == 2) {
                 runTwoClients(plan, tr, res, w, file, md5, nBlocks, announce, fault, faultAt);
                 res.traceHash = tr.hash.value();
@@ -518,6 +525,273 @@ public:
         res.trace = tr.lines;
         return res;
     }
+    // topology 3: a scripted sender offers the file over a SOCKS5 bytestream (XEP-0065); the receiver's QXmppSocksClient
+    // runs on the simulated TCP layer, the scripted stream host speaks SOCKS5 and then delivers the (possibly damaged) bytes
+    void runSocks(const Plan &plan, Trace &tr, RunResult &res, SessionWorld &w, const QByteArray &file, const QByteArray &md5, int chunk, int announce, int fault, int faultAt)
+    {
+        TcpNet tcp;
+        QObject ctx;
+        const bool sizeAnnounced = announce == 0 || announce == 1, hashAnnounced = announce == 0 || announce == 2;
+        if (fault == 4 && !hashAnnounced) {
+            fault = 0;   // nothing could notice a flipped bit
+        }
+        if ((fault == 1 || fault == 2 || fault == 3 || fault == 5 || fault == 11) && announce == 3) {
+            fault = 0;   // with nothing announced any byte stream that ends is "the file"
+        }
+        if ((fault == 2 || fault == 3) && !hashAnnounced) {
+            fault = 0;   // a raw byte stream has no sequence numbers: without a hash, repeated or swapped bytes of the right total length look like the file
+        }
+        if (fault == 8) {
+            fault = 0;
+        }
+        w.createClient(QXmppClient::NoExtensions);
+        auto *tm = w.client->addNewExtension<QXmppTransferManager>();
+        tm->setSupportedMethods(QXmppTransferJob::SocksMethod);
+        FaultyBuffer device;
+        device.open(QIODevice::ReadWrite);
+        QPointer<QXmppTransferJob> job;
+        bool jobFinished = false;
+        int jobError = -1;
+        QObject::connect(tm, &QXmppTransferManager::fileReceived, &ctx, [&](QXmppTransferJob *j) {
+            job = j;
+            QObject::connect(j, &QXmppTransferJob::finished, &ctx, [&, j] {
+                jobFinished = true;
+                jobError = (int)j->error();
+                tr.log(QStringLiteral("receiver job finished with error %1").arg(jobError));
+            });
+            j->accept(&device);
+        });
+        QList<QByteArray> toPeer;
+        w.server->onSessionStanza = [&](ServerConn &, const QDomElement &el, const QByteArray &raw) {
+            if (el.attribute(QStringLiteral("to")) == QLatin1String(kPeer)) {
+                toPeer.append(raw);
+                return true;
+            }
+            return false;
+        };
+        for (const auto &op : plan.ops) {
+            if (op.kind != QLatin1String("transfer")) {
+                w.applyCommon(op);
+                w.afterStep();
+            }
+        }
+        if (!w.client->isConnected()) {
+            res.probes[QStringLiteral("session_not_established")]++;
+            return;
+        }
+        const QByteArray to = w.server->current()->fullJid.toUtf8();
+        Prng pr(mix64(plan.seed, 0x50c5));
+        const QByteArray sid = "s5b" + QByteArray::number((int)pr.uniform(100000));
+        auto peerSend = [&](const QByteArray &xml) {
+            if (auto *c = w.server->current()) {
+                c->sendStanza(xml);
+            }
+            w.pump(nullptr);
+        };
+        auto replyType = [&](const QByteArray &id) -> QString {
+            for (int i = 0; i < toPeer.size(); ++i) {
+                QDomDocument doc;
+                const QDomElement el = simxml::parse(toPeer[i], doc);
+                if (el.tagName() == QLatin1String("iq") && el.attribute(QStringLiteral("id")) == QString::fromLatin1(id)) {
+                    toPeer.removeAt(i);
+                    return el.attribute(QStringLiteral("type"));
+                }
+            }
+            return {};
+        };
+        if (fault == 9) {
+            device.failAt = faultAt % 3;
+        } else if (fault == 10) {
+            device.shortAt = faultAt % 3;
+        }
+        QByteArray offer = "<iq type='set' id='si1' from='" + QByteArray(kPeer) + "' to='" + to + "'><si xmlns='http://jabber.org/protocol/si' id='" + sid +
+            "' profile='http://jabber.org/protocol/si/profile/file-transfer'><file xmlns='http://jabber.org/protocol/si/profile/file-transfer' name='f.bin'";
+        if (sizeAnnounced) {
+            offer += " size='" + QByteArray::number(file.size()) + "'";
+        }
+        if (hashAnnounced) {
+            offer += " hash='" + md5.toHex() + "'";
+        }
+        offer += "/><feature xmlns='http://jabber.org/protocol/feature-neg'><x xmlns='jabber:x:data' type='form'><field var='stream-method' type='list-single'><option><value>http://jabber.org/protocol/bytestreams</value></option></field></x></feature></si></iq>";
+        peerSend(offer);
+        bool faultFired = false, mustSucceed = true;
+        if (replyType("si1") != QLatin1String("result") || !job) {
+            res.probes[QStringLiteral("offer_not_accepted")]++;
+            return;
+        }
+        // the stream hosts: with faults 6/7 the first one is useless and the second one must be used
+        struct Host {
+            QByteArray jid, ip;
+            int port;
+        };
+        QList<Host> hosts = { { "proxy1.example", "10.9.8.1", 7777 } };
+        if (fault == 6 || fault == 7 || pr.chance(0.3)) {
+            hosts.append({ "proxy2.example", "10.9.8.2", 7778 });
+        }
+        QByteArray q = "<iq type='set' id='bs1' from='" + QByteArray(kPeer) + "' to='" + to + "'><query xmlns='http://jabber.org/protocol/bytestreams' sid='" + sid + "' mode='tcp'>";
+        for (const auto &h : std::as_const(hosts)) {
+            q += "<streamhost jid='" + h.jid + "' host='" + h.ip + "' port='" + QByteArray::number(h.port) + "'/>";
+        }
+        q += "</query></iq>";
+        const QByteArray expectHash = simcrypto::hash("SHA1", sid + QByteArray(kPeer) + to).toHex();
+        // TCP side: every action is queued and performed by the loop below (never from inside a library call)
+        struct Action {
+            TcpConn *c;
+            int kind;   // 0 resolve connect ok, 1 refuse, 2 deliver, 3 remote close
+            QByteArray bytes;
+        };
+        QList<Action> actions;
+        int connectsSeen = 0;
+        TcpConn *dataConn = nullptr;
+        tcp.onConnectRequested = [&](TcpConn *c) {
+            const bool first = connectsSeen++ == 0;
+            tr.log(QStringLiteral("tcp: connect requested to %1:%2").arg(c->host).arg(c->port));
+            if (first && fault == 6) {
+                faultFired = true;
+                res.faults[QStringLiteral("first_stream_host_refuses_connection")]++;
+                actions.append({ c, 1, {} });
+            } else {
+                actions.append({ c, 0, {} });
+            }
+        };
+        QMap<TcpConn *, int> socksStep;
+        int handshakes = 0;
+        tcp.onWrite = [&](TcpConn *c, const QByteArray &b) {
+            const int step = socksStep.value(c, 0);
+            if (step == 0) {
+                if (b != QByteArray("\x05\x01\x00", 3)) {
+                    res.violations.append(Violation { QStringLiteral("socks_protocol"), QStringLiteral("C19:socks5_greeting_malformed"), QString::fromLatin1(b.toHex()), 0 });
+                }
+                socksStep[c] = 1;
+                actions.append({ c, 2, QByteArray("\x05\x00", 2) });
+            } else if (step == 1) {
+                // CONNECT: 05 01 00 03 <len> <sha1 hex of sid+initiator+target> 00 00
+                const QByteArray want = QByteArray("\x05\x01\x00\x03", 4) + (char)expectHash.size() + expectHash + QByteArray(2, '\0');
+                if (b != want) {
+                    res.violations.append(Violation { QStringLiteral("socks_protocol"), QStringLiteral("C19:socks5_connect_request_not_as_specified"), QStringLiteral("got %1, XEP-0065 prescribes %2").arg(QString::fromLatin1(b.toHex()), QString::fromLatin1(want.toHex())), 0 });
+                }
+                socksStep[c] = 2;
+                const bool fail = (handshakes++ == 0 && fault == 7);
+                if (fail) {
+                    faultFired = true;
+                    res.faults[QStringLiteral("first_stream_host_answers_connect_with_failure")]++;
+                    actions.append({ c, 2, QByteArray("\x05\x01\x00\x03", 4) + (char)expectHash.size() + expectHash + QByteArray(2, '\0') });
+                } else {
+                    actions.append({ c, 2, QByteArray("\x05\x00\x00\x03", 4) + (char)expectHash.size() + expectHash + QByteArray(2, '\0') });
+                    dataConn = c;
+                }
+            }
+        };
+        peerSend(q);
+        bool streamed = false;
+        for (int guard = 0; guard < 400; ++guard) {
+            w.pump(nullptr);
+            if (!actions.isEmpty()) {
+                const Action a = actions.takeFirst();
+                switch (a.kind) {
+                case 0: tcp.resolveConnect(a.c, true); break;
+                case 1: tcp.resolveConnect(a.c, false); break;
+                case 2: tcp.deliver(a.c, a.bytes); break;
+                default: tcp.remoteClose(a.c);
+                }
+                settle();
+                continue;
+            }
+            if (!streamed && dataConn && replyType("bs1") == QLatin1String("result")) {
+                // the receiver told the sender which stream host it uses: the bytes flow
+                streamed = true;
+                QList<QByteArray> chunks;
+                for (int i = 0; i < file.size(); i += chunk) {
+                    chunks.append(file.mid(i, chunk));
+                }
+                const int n = chunks.size();
+                const int at = n ? faultAt % n : 0;
+                if (n > 0) {
+                    switch (fault) {
+                    case 1: chunks.removeAt(at); faultFired = true; mustSucceed = false; res.faults[QStringLiteral("bytes_missing_from_stream")]++; break;
+                    case 2: chunks.insert(at, chunks[at]); faultFired = true; mustSucceed = false; res.faults[QStringLiteral("bytes_repeated_in_stream")]++; break;
+                    case 3:
+                        if (n >= 2 && chunks[std::min(at, n - 2)] != chunks[std::min(at, n - 2) + 1]) {
+                            chunks.swapItemsAt(std::min(at, n - 2), std::min(at, n - 2) + 1);
+                            faultFired = true;
+                            mustSucceed = false;
+                            res.faults[QStringLiteral("stream_chunks_swapped")]++;
+                        }
+                        break;
+                    case 4: {
+                        QByteArray &c = chunks[at];
+                        c[0] = c[0] ^ 0x10;
+                        faultFired = true;
+                        mustSucceed = false;
+                        res.faults[QStringLiteral("stream_bit_flipped")]++;
+                        break;
+                    }
+                    case 5:
+                        while (chunks.size() > at) {
+                            chunks.removeLast();
+                        }
+                        faultFired = true;
+                        mustSucceed = false;
+                        res.faults[QStringLiteral("stream_closed_early")]++;
+                        break;
+                    case 11:
+                        chunks.append(pr.bytes((int)pr.range(1, 64)));
+                        faultFired = true;
+                        mustSucceed = false;
+                        res.faults[QStringLiteral("surplus_bytes_after_the_file")]++;
+                        break;
+                    default: break;
+                    }
+                }
+                if (fault == 9 || fault == 10) {
+                    faultFired = n > 0;
+                    mustSucceed = n == 0;
+                    res.faults[fault == 9 ? QStringLiteral("device_write_error") : QStringLiteral("device_short_write")]++;
+                }
+                for (const auto &c : std::as_const(chunks)) {
+                    actions.append({ dataConn, 2, c });
+                }
+                actions.append({ dataConn, 3, {} });
+                continue;
+            }
+            // a stream host that never answers is given up after the library's own timeout
+            if (!streamed && !jobFinished && !w.fireNextTimer(8000)) {
+                break;
+            }
+            if (streamed || jobFinished) {
+                break;
+            }
+        }
+        w.pump(nullptr);
+        settle();
+        if (job && jobFinished && job->error() == QXmppTransferJob::NoError) {
+            jobError = (int)QXmppTransferJob::NoError;
+        }
+        const bool exact = device.data == file;
+        tr.log(QStringLiteral("socks5 receiver: finished=%1 error=%2 received=%3/%4 exact=%5 (fault %6)").arg(jobFinished).arg(jobError).arg(device.data.size()).arg(file.size()).arg(exact).arg(fault));
+        if (jobFinished && jobError == QXmppTransferJob::NoError && !exact) {
+            res.violations.append(Violation { QStringLiteral("success_with_wrong_bytes"), QStringLiteral("C19:receiver_reports_success_but_copy_differs:socks5:fault%1:%2").arg(fault).arg(QLatin1String(announceNames[announce & 3])),
+                                              QStringLiteral("SOCKS5 bytestream: the receiver finished with NoError but holds %1 bytes that differ from the %2 bytes sent (fault %3 at chunk %4 of size %5, announced: %6)").arg(device.data.size()).arg(file.size()).arg(fault).arg(faultAt).arg(chunk).arg(QLatin1String(announceNames[announce & 3])), 0 });
+        }
+        if (mustSucceed && (!jobFinished || jobError != QXmppTransferJob::NoError || !exact)) {
+            res.violations.append(Violation { QStringLiteral("fault_free_transfer_failed"), QStringLiteral("C19:socks5_transfer_without_data_fault_did_not_succeed:fault%1").arg(fault),
+                                              QStringLiteral("SOCKS5 bytestream, no fault on the data (fault kind %1): finished=%2 error=%3, %4/%5 bytes").arg(fault).arg(jobFinished).arg(jobError).arg(device.data.size()).arg(file.size()), 0 });
+        }
+        for (const auto &v : std::as_const(res.violations)) {
+            tr.log(QStringLiteral("VIOLATION ") + v.signature);
+        }
+        res.nontrivial = faultFired || file.size() > chunk;
+        res.steps = 5 + tcp.conns.size();
+        res.caseKey = QStringLiteral("t3|%1|%2|%3|%4|%5").arg(chunk).arg(file.size()).arg(announce).arg(fault).arg(faultAt);
+        tcp.onWrite = nullptr;
+        tcp.onConnectRequested = nullptr;
+        w.client->disconnectFromServer();
+        w.pump(nullptr);
+        delete w.client;
+        w.client = nullptr;
+        settle();
+    }
+
     // topology 2: two real clients, each with a real transfer manager and its own scripted server; the servers relay the
     // stanzas addressed to the other account, and the relay is where the faults happen
     void runTwoClients(const Plan &plan, Trace &tr, RunResult &res, SessionWorld &wa, const QByteArray &file, const QByteArray &md5, int nBlocks, int announce, int fault, int faultAt)
